@@ -30,6 +30,7 @@ type Profile struct {
 	TrimScenario    float64 // probability that the history starts with the scripted trim -> retry prelude
 	DiscardRate     float64 // probability that a mutation is compat DiscardForRestore of the channel
 	BigDiscard      float64 // probability that the history is the > 1024-row multi-page discard script
+	BigTrunc        float64 // probability that the history is the > 1024-row script ending in a truncation far below LEO
 }
 
 // planRow is the planner's estimate of one stored row.
@@ -445,6 +446,44 @@ func (g *planner) bigDiscard() []Op {
 	return ops
 }
 
+// bigTrunc: more than 1024 rows in one channel, then ONE truncation call far below
+// the log end (compat Truncate = truncateLocked, or typed TruncateFrom): the model
+// says one batch, so no store between "before" and "after" may ever be recovered.
+func (g *planner) bigTrunc() []Op {
+	c := g.r.IntN(NChans)
+	other := (c + 1) % NChans
+	var ops []Op
+	total := 1040 + g.r.IntN(80)
+	for total > 0 {
+		k := min(total, 300+g.r.IntN(100))
+		recs := make([]Rec, k)
+		for i := range recs {
+			g.nextID++
+			recs[i] = Rec{ID: g.nextID, Pl: "61", Ts: 5}
+			if i%89 == 0 {
+				recs[i].Uid, recs[i].Cno = vh.Pick(g.r, uidPool...), g.freshCno()
+			}
+		}
+		ops = append(ops, Op{K: "append", C: c, Mode: 2, Recs: recs})
+		g.noteAppend(c, recs)
+		total -= k
+	}
+	g.nextID++
+	o := Rec{ID: g.nextID, Uid: "u1", Cno: g.freshCno(), Pl: "6f", Ts: 1}
+	ops = append(ops, Op{K: "append", C: other, Recs: []Rec{o}})
+	g.noteAppend(other, []Rec{o})
+	to := uint64(1 + g.r.IntN(12))
+	if vh.Chance(g.r, 0.75) {
+		ops = append(ops, Op{K: "ctrunc", C: c, A: to})
+	} else {
+		ops = append(ops, Op{K: "trunc", C: c, A: to + 1})
+	}
+	g.truncNote(c, to)
+	ops = append(ops, Op{K: "leo", C: c}, Op{K: "read", C: c, A: 1})
+	ops = append(ops, g.appendOp(c), Op{K: "read", C: other, A: 1})
+	return ops
+}
+
 // survivors lists the keyed rows the planner expects above every trim boundary.
 func (g *planner) survivors(c int) []planRow {
 	pc := &g.ch[c]
@@ -644,6 +683,9 @@ func GenHistory(r *rand.Rand, p Profile) Input {
 	g := &planner{r: r, p: p}
 	if p.BigDiscard > 0 && vh.Chance(r, p.BigDiscard) {
 		return Input{Ops: g.bigDiscard(), Compact: true}
+	}
+	if p.BigTrunc > 0 && vh.Chance(r, p.BigTrunc) {
+		return Input{Ops: g.bigTrunc(), Compact: true}
 	}
 	n := p.MinOps + r.IntN(p.MaxOps-p.MinOps+1)
 	ops := make([]Op, 0, n+8)
